@@ -312,7 +312,7 @@ def ns_shadow(j: Job) -> bool:
                 declared.add(tuple(ch[:i]))
         # first components of the qualified names the header of d emits: the templates' own std:: (and nunavut::support:: with
         # serialization), and the root namespace of every referenced composite
-        roots = {'std'} | (set() if j.cfg['pod'] else {'nunavut'})
+        roots = {'std', 'size_t'} | (set() if j.cfg['pod'] else {'nunavut'})      # size_t: used unqualified by the variant helper templates
         for a in d['attrs']:
             r = comp_refs(a)
             if r and j.chains.get(r):
